@@ -79,4 +79,8 @@ theorem C06_responder_total (cfg : Auth.NetCfg) (f : Frame) :
   · intro hp
     simp [Auth.respond, hp]
 
+/-- `ControlNetwork::recv` of the current source pads after copying (`copy_from_slice` then `set_len(8)`): what
+`C06_network_delivers_8` is about -/
+theorem C06_network_pads_after_copy : netRecvFiltersThenPadsTo8 = true := by decide
+
 end Glonax.Thm.C06
